@@ -4,7 +4,8 @@
    history h (any list of logins, logouts, proxy registrations and closures, visitor connections, NAT-hole
    requests with or without pre-check, session ends, accepts); [spec_of h] is the specification's view of the
    same history: which registration (owner, kind, key, effective allowed users) is live under each name. *)
-From FRP Require Import Model.Visitor Proofs.VisitorProofs Model.VisitorStacks Proofs.VisitorStacksCheck gen.GenVisitorStacks.
+From FRP Require Import Model.Visitor Proofs.VisitorProofs Model.VisitorStacks Proofs.VisitorStacksCheck gen.GenVisitorStacks
+  Model.VisitorPath Proofs.VisitorPathProofs Model.Frame.
 Open Scope Z_scope.
 
 (* the server's tables hold exactly the live registrations of the specification, after every history *)
@@ -195,6 +196,103 @@ Proof.
            gvs_newconn_params gvs_register_args gvs_msg_stcp gvs_msg_sudp (eq_refl true)).
 Qed.
 Print Assumptions C08_stacks_mirror_today.
+
+(* ---- round 5: before and after the admission decision ---- *)
+
+(* the loser of a registration race (its Exist check said "free" before a concurrent registration of the same name
+   completed) is refused in Run or in Add and changes nothing: the incumbent's registration stays live, so
+   C08_bridged_implies_key_and_user / C08_key_and_user_admitted_stream keep speaking about the incumbent *)
+Theorem C08_race_loser_leaves_incumbent : forall hash h rid k name sk allow r,
+  sp_reg (spec_of h) name = Some r ->
+  exists o, sys_step hash (sys_state hash h) (SRegisterLate rid k name sk allow) = (sys_state hash h, o) /\
+            (o = ONoSession \/ o = OReg VLErrRepeated \/ o = ORegErrInUse) /\
+            forall n, sp_reg (spec_of (h ++ [SRegisterLate rid k name sk allow])) n = sp_reg (spec_of h) n.
+Proof. exact race_loser_leaves_incumbent. Qed.
+Print Assumptions C08_race_loser_leaves_incumbent.
+
+(* key + allowed user is also sufficient at a live listener whose accept queue is open and not full *)
+Theorem C08_key_and_user_admitted_stream : forall hash t name b cid ts ue uc user,
+  vget name t = Some b -> vallowed (vb_allow b) user = true -> vb_closed b = false ->
+  (length (vb_queue b) < vq_cap)%nat ->
+  exists t', vm_new_conn hash t name cid ts (hash (vb_sk b) ts) ue uc user true = (t', VOk).
+Proof. exact key_and_user_admitted_stream. Qed.
+Print Assumptions C08_key_and_user_admitted_stream.
+
+(* the bytes that arrive together with the NewVisitorConnResp frame (a backend that speaks first, the IV of the
+   cipher) are the beginning of the stream: decoding takes exactly the frame, the stack unwraps the rest *)
+Theorem C08_response_then_stream :
+  forall (enc_wr : bytes -> list bytes -> list bytes) (enc_rd : bytes -> bytes -> bytes)
+         (comp_wr : list bytes -> list bytes) (comp_rd : bytes -> bytes),
+  (forall k cs, enc_rd k (List.concat (enc_wr k cs)) = List.concat cs) ->
+  (forall cs, comp_rd (List.concat (comp_wr cs)) = List.concat cs) ->
+  forall reg t body st chunks,
+  reg t = true -> blen body <= max_len ->
+  visitor_after_resp enc_rd comp_rd reg st
+    (encode_frame t body ++ List.concat (stack_wr enc_wr comp_wr st chunks))%list = Some (body, List.concat chunks).
+Proof. exact response_then_stream. Qed.
+Print Assumptions C08_response_then_stream.
+
+(* xtcp has one leg, visitor frpc to owner frpc: transparent when both ends declare the same flags and hold the key.
+   This is the part of "whatever encryption and compression the visitor and the proxy each declare" that holds ... *)
+Theorem C08_xtcp_stream_transparent_partial :
+  forall (enc_wr : bytes -> list bytes -> list bytes) (enc_rd : bytes -> bytes -> bytes)
+         (comp_wr : list bytes -> list bytes) (comp_rd : bytes -> bytes),
+  (forall k cs, enc_rd k (List.concat (enc_wr k cs)) = List.concat cs) ->
+  (forall cs, comp_rd (List.concat (comp_wr cs)) = List.concat cs) ->
+  forall ue uc sk chunks,
+  xtcp_deliver enc_wr enc_rd comp_wr comp_rd (vstack ue uc sk) (vstack ue uc sk) chunks = List.concat chunks.
+Proof. exact xtcp_transparent. Qed.
+Print Assumptions C08_xtcp_stream_transparent_partial.
+
+(* ... and this is the part that does not: different declarations at the two ends of that single leg *)
+Theorem C08_xtcp_mismatched_flags_refuted :
+  exists (enc_wr : bytes -> list bytes -> list bytes) (enc_rd : bytes -> bytes -> bytes)
+         (comp_wr : list bytes -> list bytes) (comp_rd : bytes -> bytes),
+    (forall k cs, enc_rd k (List.concat (enc_wr k cs)) = List.concat cs) /\
+    (forall cs, comp_rd (List.concat (comp_wr cs)) = List.concat cs) /\
+    exists sk chunks,
+      xtcp_deliver enc_wr enc_rd comp_wr comp_rd (vstack true false sk) (vstack false false sk) chunks <> List.concat chunks.
+Proof. exact xtcp_mismatched_flags_refuted. Qed.
+Print Assumptions C08_xtcp_mismatched_flags_refuted.
+
+(* Reflective, over today's translator output (t5v): on its way from the owner's configuration to the server - ini
+   conversion, MarshalToMsg, UnmarshalFromMsg of the three secret proxy types - the allowed-users value is handed on
+   unchanged, so that in every format an absent or empty list reaches the server as the empty list and becomes
+   [owner's user], and an explicit list is taken as it is *)
+Theorem C08_config_default_is_owner_only :
+  exists stages, gplumb_interp gvs_allow_plumbing = Some stages /\
+    forall f c owner,
+      effective_allow stages f c owner =
+      match c with CAbsent => [owner] | CList [] => [owner] | CList (a :: l) => a :: l end.
+Proof. exact (allow_plumbing_sound gvs_allow_plumbing (eq_refl true)). Qed.
+Print Assumptions C08_config_default_is_owner_only.
+
+(* Reflective: Run of STCPProxy, SUDPProxy and XTCPProxy on the server registers the configured key and
+   vdefault_allow of the configured list, and defers nothing (a failing Run has nothing of its own to tear down) *)
+Theorem C08_server_runs_today : forall r, In r gvs_server_runs ->
+  forall l o k, grun_interp r l o k = Some (k, vdefault_allow l o).
+Proof. exact (server_runs_sound gvs_server_runs (eq_refl true)). Qed.
+Print Assumptions C08_server_runs_today.
+
+Definition today_tables : gtables :=
+  {| gt_newconn := gvs_server_newconn; gt_vstcp := gvs_client_stcp; gt_vsudp := gvs_client_sudp; gt_vxtcp := gvs_client_xtcp;
+     gt_handle_params := gvs_handle_tcp_params; gt_handle := gvs_handle_tcp; gt_inwork := gvs_inworkconn_calls;
+     gt_sudp_owner := gvs_sudp_owner; gt_server_work := gvs_server_work; gt_xtcp_streams := gvs_xtcp_owner_streams |}.
+
+(* Reflective: the key each secret-proxy type uses for its stream wrapper, at both ends of every leg: the secret key
+   on the visitor leg (stcp, sudp) and on the xtcp tunnel (both listen functions), the token on the work leg *)
+Theorem C08_leg_keys_today : forall l, In l gall_legs ->
+  gleg_ends today_tables l <> [] /\ forall e, In e (gleg_ends today_tables l) -> e = (leg_key l, leg_key l).
+Proof. exact (leg_keys_sound today_tables (eq_refl true)). Qed.
+Print Assumptions C08_leg_keys_today.
+
+(* Reflective: the stcp and sudp visitors build their wrapper stack on the very reader they decoded the
+   NewVisitorConnResp frame from (no buffered reader in between that could keep stream bytes) *)
+Theorem C08_resp_reader_today :
+  gresp_reader_ok gvs_visitor_resp_readers "STCPVisitor" = true /\
+  gresp_reader_ok gvs_visitor_resp_readers "SUDPVisitor" = true.
+Proof. split; reflexivity. Qed.
+Print Assumptions C08_resp_reader_today.
 
 (* ---- the hypotheses are satisfiable: concrete histories (toy hash: key ++ 8-byte timestamp) ---- *)
 Definition ex_hash (sk : bytes) (ts : Z) : bytes := (sk ++ be 8 ts)%list.
